@@ -2137,6 +2137,7 @@ type (
 		PID                int64                                                       `json:"pid"`
 		TxStart            time.Time                                                   `json:"txStart"`
 		TxPartFirstOffsets map[string]map[int32]int64                                  `json:"txPartFirstOffsets"`
+		TxPartPinned       map[string]map[int32]bool                                   `json:"txPartPinned"`
 		TxGroups           []string                                                    `json:"txGroups,omitempty"`
 		TxOffsets          map[string]map[string]map[int32]sessionTxStagedOffsetCommit `json:"txOffsets,omitempty"`
 	}
@@ -2386,12 +2387,24 @@ func (c *Cluster) saveSessionState() error {
 			PID:                pidinf.id,
 			TxStart:            pidinf.txStart,
 			TxPartFirstOffsets: make(map[string]map[int32]int64),
+			TxPartPinned:       make(map[string]map[int32]bool),
 		}
 		pidinf.txPartFirstOffsets.each(func(t string, p int32, off *int64) {
 			if _, ok := st.TxPartFirstOffsets[t]; !ok {
 				st.TxPartFirstOffsets[t] = make(map[int32]int64)
 			}
 			st.TxPartFirstOffsets[t][p] = *off
+			// TxPartPinned: the partition's current log holds this
+			// transaction's records (not so once the topic was deleted
+			// and recreated). Nil in files written before the field existed.
+			if pd, ok := c.data.tps.getp(t, p); ok {
+				if _, pinned := pd.uncommittedPIDs[pidinf.id]; pinned {
+					if st.TxPartPinned[t] == nil {
+						st.TxPartPinned[t] = make(map[int32]bool)
+					}
+					st.TxPartPinned[t][p] = true
+				}
+			}
 		})
 		// Save staged TxnOffsetCommit offsets (pending EndTxn commit).
 		// Without this, after restart endTx has no offsets to apply,
@@ -2674,6 +2687,9 @@ func (c *Cluster) loadSessionState() error {
 						return &v
 					})
 					*ptr = firstOff
+					if st.TxPartPinned != nil && !st.TxPartPinned[topic][part] {
+						continue // registered on a deleted incarnation of the topic
+					}
 					if pd.uncommittedPIDs == nil {
 						pd.uncommittedPIDs = make(map[int64]int64)
 					}
@@ -2719,6 +2735,9 @@ func (c *Cluster) loadSessionState() error {
 					return &v
 				})
 				*ptr = firstOff
+				if st.TxPartPinned != nil && !st.TxPartPinned[topic][part] {
+					continue // registered on a deleted incarnation of the topic
+				}
 				// Reconstruct pd.uncommittedPIDs
 				if pd.uncommittedPIDs == nil {
 					pd.uncommittedPIDs = make(map[int64]int64)
